@@ -470,3 +470,8 @@ package oidc
 //@   variant live
 //@   #allocates
 //@   ensures  keys: err == nil && set != nil && KeysFrom(cfg, set)
+
+// the discovery document of a provider: fetched (and cached) — assumed contract: HTTP and JSON decoding
+//@ func GetWellKnownConfig
+//@   abstractbody
+//@   #allocates
